@@ -1,1 +1,27 @@
-fn main(){}
+mod c01;
+mod c02;
+mod c03;
+mod c04;
+mod c05;
+mod mcase;
+
+fn main() {
+    let args: Vec<String> = std::env::args().skip(1).collect();
+    let Some(id) = args.first().cloned() else {
+        eprintln!("usage: vmatch <ID> [--tier quick|thorough] [--replay FILE]");
+        std::process::exit(2);
+    };
+    let rest = &args[1..];
+    let code = match id.as_str() {
+        "C01" => vcommon::driver::main_for(&c01::C01, rest),
+        "C02" => vcommon::driver::main_for(&c02::C02, rest),
+        "C03" => vcommon::driver::main_for(&c03::C03, rest),
+        "C04" => vcommon::driver::main_for(&c04::C04, rest),
+        "C05" => vcommon::driver::main_for(&c05::C05, rest),
+        _ => {
+            eprintln!("unknown property {id}");
+            2
+        }
+    };
+    std::process::exit(code);
+}
